@@ -31,6 +31,10 @@ type outcome struct {
 	events []simkit.Ev
 	err    error
 	panic  *simkit.PanicInfo
+	// digest mode (huge event streams): number of events and their digest
+	hashed bool
+	count  int
+	sum    uint64
 }
 
 func (o *outcome) rejected() bool { return o.err != nil || o.panic != nil }
@@ -46,15 +50,20 @@ func (o *outcome) verdict() string {
 }
 
 type runner struct {
-	cd    *common.Codec
-	doc   []byte
-	noRef bool
-	x     *simkit.Ctx
+	cd     *common.Codec
+	doc    []byte
+	noRef  bool
+	x      *simkit.Ctx
+	docHex string
+	digest bool // compare event streams by digest (extreme shapes)
 }
 
 func (r *runner) tap() *simkit.Tap {
 	t := simkit.NewTap(nil)
 	t.Clock = &r.x.Clock
+	if r.digest {
+		t.NoRecord, t.Hash = true, true
+	}
 	return t
 }
 
@@ -65,7 +74,7 @@ func (r *runner) exec(entry string, cuts, reads []int, eofWithData bool, readerK
 	}
 	t := r.tap()
 	o := &outcome{}
-	simkit.SetCurrent(&Scenario{Format: string(r.cd.Name), Doc: hex.EncodeToString(r.doc), Entry: entry, Cuts: cuts, Reads: reads, EOFWithData: eofWithData, NoRef: r.noRef})
+	simkit.SetCurrent(&Scenario{Format: string(r.cd.Name), Doc: r.hex(), Entry: entry, Cuts: cuts, Reads: reads, EOFWithData: eofWithData, NoRef: r.noRef})
 	o.panic = simkit.Guard(func() {
 		switch entry {
 		case "parse":
@@ -106,7 +115,22 @@ func (r *runner) exec(entry string, cuts, reads []int, eofWithData bool, readerK
 		}
 	})
 	o.events = t.Events
+	o.hashed, o.count, o.sum = t.Hash, t.Count, t.Sum
 	return o
+}
+
+// hex returns the document in hex, computed once (the whole of it up to 64 KiB;
+// beyond that the first bytes and the length: replay regenerates the document
+// from the choice trace).
+func (r *runner) hex() string {
+	if r.docHex == "" {
+		if len(r.doc) <= 64<<10 {
+			r.docHex = hex.EncodeToString(r.doc)
+		} else {
+			r.docHex = fmt.Sprintf("%s...(%d bytes in all)", hex.EncodeToString(r.doc[:64]), len(r.doc))
+		}
+	}
+	return r.docHex
 }
 
 // Engine is the C02 engine.
@@ -140,6 +164,15 @@ func (Engine) Run(c *simkit.Choices, x *simkit.Ctx) *simkit.Violation {
 		o.TopContainer = c.Bool()
 	}
 	doc := common.GenDoc(c, f, o, nvals)
+	extreme := false
+	if c.N(800) == 0 {
+		// MiB-sized tokens, 10^5 levels, 10^5 elements: growth policies and
+		// size-dependent paths of the buffering code only exist out here
+		var kind string
+		doc, kind = common.ExtremeDoc(c, f)
+		extreme = true
+		st.Probe("extreme-shape-" + kind)
+	}
 	data := doc.Bytes
 	var faults []common.Fault
 	mutated := c.N(4) == 0
@@ -152,9 +185,9 @@ func (Engine) Run(c *simkit.Choices, x *simkit.Ctx) *simkit.Violation {
 			data, faults, mutated = doc.Bytes, nil, false
 		}
 	}
-	r := &runner{cd: cd, doc: data, noRef: c.N(6) == 0, x: x}
+	r := &runner{cd: cd, doc: data, noRef: c.N(6) == 0, x: x, digest: extreme}
 	sc := func(entry string, cuts, reads []int, ewd bool) *Scenario {
-		s := &Scenario{Format: string(f), Doc: hex.EncodeToString(data), Corruptions: faults, Entry: entry,
+		s := &Scenario{Format: string(f), Doc: r.hex(), Corruptions: faults, Entry: entry,
 			Cuts: cuts, Reads: reads, EOFWithData: ewd, NoRef: r.noRef}
 		if f == model.JSON {
 			s.DocText = string(data)
@@ -177,6 +210,13 @@ func (Engine) Run(c *simkit.Choices, x *simkit.Ctx) *simkit.Violation {
 		}
 		if mutated || ref.rejected() {
 			return nil // invalid documents: verdict only
+		}
+		if ref.hashed {
+			if ref.count != got.count || ref.sum != got.sum {
+				return &simkit.Violation{Kind: "events-differ", Site: string(f) + "/" + s.Entry + "/digest",
+					Detail: fmt.Sprintf("one chunk: %d events (digest %x); this schedule: %d events (digest %x)", ref.count, ref.sum, got.count, got.sum), Scenario: s}
+			}
+			return nil
 		}
 		if d := simkit.DiffEvents(ref.events, got.events); d >= 0 {
 			kind := "end"
@@ -240,6 +280,9 @@ func (Engine) Run(c *simkit.Choices, x *simkit.Ctx) *simkit.Violation {
 		if n > 20000 {
 			ncuts = 60
 		}
+		if extreme {
+			ncuts = 10
+		}
 		for i := 0; i < ncuts; i++ {
 			p := 1 + c.N(n-1)
 			if !mutated && len(doc.Tokens) > 0 && i%2 == 0 {
@@ -262,7 +305,7 @@ func (Engine) Run(c *simkit.Choices, x *simkit.Ctx) *simkit.Violation {
 		st.Probe("long-document-sampled-cuts")
 	}
 	// all one-byte chunks
-	if n > 1 && n <= 20000 {
+	if n > 1 && n <= 20000 && !extreme {
 		all := make([]int, 0, n-1)
 		for p := 1; p < n; p++ {
 			all = append(all, p)
@@ -283,6 +326,9 @@ func (Engine) Run(c *simkit.Choices, x *simkit.Ctx) *simkit.Violation {
 	}
 	// seeded random cut sets, incl. empty writes (duplicate positions)
 	k := 4 + c.N(6)
+	if extreme {
+		k = 2
+	}
 	for i := 0; i < k && n > 0; i++ {
 		cuts := drawCuts(c, doc, n, !mutated)
 		if v := tryWrite(cuts); v != nil {
@@ -290,8 +336,17 @@ func (Engine) Run(c *simkit.Choices, x *simkit.Ctx) *simkit.Violation {
 		}
 	}
 	// reader-driven parses: arbitrary short reads, EOF with or after the data
-	for i := 0; i < 4+c.N(4); i++ {
+	nplans := 4 + c.N(4)
+	if extreme {
+		nplans = 2
+	}
+	for i := 0; i < nplans; i++ {
 		reads := drawReads(c, n)
+		if extreme {
+			for j := range reads {
+				reads[j] += 500 // (no byte-by-byte delivery of MiB documents)
+			}
+		}
 		ewd := c.Bool()
 		if ewd {
 			st.Fault("eof-with-data")
